@@ -81,6 +81,7 @@ package memory
 //@   ensures size_same: s.size == old(s.size)
 //@   ensures scoped: old(key in s.blobs) ==> ((result1 == nil) <==> !((s.blobs[key].complete && scope == storelib.BlobScopeIncomplete) || (!s.blobs[key].complete && scope == storelib.BlobScopeComplete)))
 //@   ensures handle: result1 == nil ==> result0 != nil && result0.data == s.blobs[key].data && result0.off == 0
+//@   ensures rejected_is_no_use: result1 != nil ==> (forall e *list.Element :: e.rank == old(e.rank) && e.list == old(e.list))
 //@   ensures no_handle: result1 != nil ==> result0 == nil
 
 // Delete removes exactly the named blob (if it is in scope), releases exactly its bytes and
